@@ -1,6 +1,6 @@
 (* C16 — no hidden reallocation: addresses are stable until capacity is exceeded. *)
 From Coq Require Import ZArith List Bool.
-From Cntgs Require Import Base Layout Mem Vector World Spec Rep StableThm Refine NtLedger.
+From Cntgs Require Import Base Layout Mem Vector World Spec Rep StableThm Refine NtLedger Refine NtRefine LifeHist AddrStable.
 Import ListNotations.
 Local Open Scope Z_scope.
 
@@ -75,3 +75,43 @@ Theorem C16_erase_range_no_allocation_every_list : forall L v i j,
   no_alloc (snd (erase_range L v i j)) /\ v_bid (fst (erase_range L v i j)) = v_bid v.
 Proof. exact erase_range_no_alloc_nt. Qed.
 Print Assumptions C16_erase_range_no_allocation_every_list.
+
+(* ---------- every list: addresses are a function of the content in front ----------
+   In every represented state the offset of element k is determined by the tuples in front of
+   it (tight packing is part of the invariant).  So two represented states whose lists share a
+   prefix hold the elements of that prefix at the same offsets from data_begin() - whatever
+   happened in between: emplace_back, pop_back, erase / erase(first,last) behind them, clear and
+   refill with the same values, reserve.  (That the block is not replaced by the operations
+   C16 names is the no-allocation theorems above.) *)
+Theorem C16_addresses_are_a_function_of_the_content : forall L v l offs k, RepO L v l offs -> (k < length l)%nat ->
+  eaddr L v (Z.of_nat k) = nth k (cpos L 0 l) 0.
+Proof. exact addresses_from_content. Qed.
+Print Assumptions C16_addresses_are_a_function_of_the_content.
+
+Theorem C16_common_prefix_same_addresses : forall L v l offs v' l' offs' n k,
+  RepO L v l offs -> RepO L v' l' offs' -> firstn n l = firstn n l' ->
+  (k < n)%nat -> (k < length l)%nat -> (k < length l')%nat ->
+  eaddr L v' (Z.of_nat k) = eaddr L v (Z.of_nat k).
+Proof. exact common_prefix_same_addresses. Qed.
+Print Assumptions C16_common_prefix_same_addresses.
+
+(* along histories: whatever valid continuation [ext] follows a valid history [h] (every list;
+   erase with elements behind only on trivially relocatable lists), the elements of the common
+   prefix of the two represented lists keep their offsets *)
+Theorem C16_addresses_stable_along_histories : forall L cap budget fixed aid junk bid tbid h ext n k,
+  wf_plist L = true -> 0 <= cap -> Forall (fun c => 0 <= c) fixed ->
+  let v0 := fst (mkvec L cap budget fixed aid junk bid tbid) in
+  let s0 := {| s_cap := cap; s_elems := [] |} in
+  shist_valid L (fixed_counts L fixed) s0 h -> nt_hist_ok L s0 h ->
+  shist_valid L (fixed_counts L fixed) s0 (h ++ ext) -> nt_hist_ok L s0 (h ++ ext) ->
+  let l := s_elems (srun s0 h) in
+  let l' := s_elems (srun s0 (h ++ ext)) in
+  firstn n l = firstn n l' -> (k < n)%nat -> (k < length l)%nat -> (k < length l')%nat ->
+  eaddr L (vrun L junk v0 (h ++ ext)) (Z.of_nat k) = eaddr L (vrun L junk v0 h) (Z.of_nat k).
+Proof.
+  intros L cap budget fixed aid junk bid tbid h ext n k Hwf Hcap Hfx. cbv zeta. intros Hv Hn Hv' Hn' Hp Hk Hl Hl'.
+  destruct (rep_every_history_nt L cap budget fixed aid junk bid tbid h Hwf Hcap Hfx Hv Hn) as [offs R].
+  destruct (rep_every_history_nt L cap budget fixed aid junk bid tbid (h ++ ext) Hwf Hcap Hfx Hv' Hn') as [offs' R'].
+  exact (common_prefix_same_addresses L _ _ offs _ _ offs' n k R R' Hp Hk Hl Hl').
+Qed.
+Print Assumptions C16_addresses_stable_along_histories.
